@@ -86,6 +86,7 @@ func errResult(c *ssa.Call) ssa.Value {
 }
 
 func runC03(w *World, r *Report, tier string) {
+	wireRule(w, r, "W1", "<bind><resource/></bind>, <enable resume=…/>", wireBind, wireSMEnable)
 	r.Rule("R1", "order and presence: on every path of NewSession the step calls occur in the order init, startTlsIfSupported, [gate], reset, auth, reset, resume, bind, rfc3921Session, EnableStreamManagement; every return that can carry a nil error has passed init, auth, the post-auth reset and either resume()==true or bind, rfc3921Session and EnableStreamManagement; in every step the request write dominates the reply read")
 	r.Rule("R1b", "optional requests: <starttls/> only on the ok-edge of Features.DoesStartTLS(); the session IQ only on the false-edge of Features.Session.IsOptional(), and then always; <enable/> only under DoesStreamManagement() and Config.StreamManagementEnable")
 	r.Rule("R2", "stickiness: each step begins with `if s.err != nil return` or is called under an s.err==nil edge; NewSession returns s.err; the stream restart after STARTTLS is guarded by a flag that is true only if STARTTLS succeeded on this connection")
